@@ -6,7 +6,7 @@
    while it still holds the mutex).  The data-race clause is proved only as
    the lockset discipline of the code as written (C07_code_lockset); the Go memory model is trusted and the harness
    runs under the race detector (partial, see DESIGN.md). *)
-From Radius Require Import Base.Bytes Base.Res Model.Shutdown Proofs.ShutdownInv Proofs.Shutdown Proofs.ShutdownShape.
+From Radius Require Import Base.Bytes Base.Res Model.Shutdown Proofs.ShutdownInv Proofs.Shutdown Proofs.ShutdownShape Proofs.ShutdownLabels.
 Open Scope nat_scope.
 
 Theorem C07_invariant : forall s, reachable false s -> Inv s.
@@ -102,6 +102,40 @@ Proof. exact code_paths_complete_holds. Qed.
 Theorem C07_code_lockset : code_lockset.
 Proof. exact code_lockset_holds. Qed.
 
+(* the label table of the model, for EVERY state, thread and action (no reachability hypothesis): which program
+   points can change which shared variable.  The mutex is taken only at the three Lock() points and released only
+   at the four Unlock() points; shutdownRequested is written only by the compare-and-swap point and only from 0 to
+   1; activeCount moves by exactly one, up only at the activeAdd points and down only at the activeDone points;
+   lastActive is closed only at an activeDone point that found the counter at 0; s.listeners changes only at the
+   registration and removal points of Serve; no step shortens the thread table.  This is what makes the state-diff
+   labels of Model/ShutdownShape.v ([step_ops], compared with the source skeleton in C07_code_order) a function of
+   the program point rather than of the sampled states. *)
+Theorem C07_label_table :
+  forall s i a s', step false s i a = Some s' ->
+    (mu s = false -> mu s' = true ->
+       exists t, nth_error (threads s) i = Some t /\ lock_site t = true /\ a = ARun) /\
+    (mu s = true -> mu s' = false ->
+       exists t, nth_error (threads s) i = Some t /\ unlock_site t = true /\ a = ARun) /\
+    (shut s <> shut s' ->
+       exists t, nth_error (threads s) i = Some t /\ cas_site t = true /\ a = ARun /\ shut s = false /\ shut s' = true) /\
+    ((active s < active s')%Z ->
+       exists t, nth_error (threads s) i = Some t /\ add_site t = true /\ active s' = (active s + 1)%Z) /\
+    ((active s' < active s)%Z ->
+       exists t, nth_error (threads s) i = Some t /\ done_site t = true /\ a = ARun /\ active s' = (active s - 1)%Z) /\
+    (closes s <> closes s' ->
+       exists t, nth_error (threads s) i = Some t /\ done_site t = true /\ a = ARun /\
+                 active s = 0%Z /\ closes s' = S (closes s)) /\
+    (regs s <> regs s' ->
+       exists t, nth_error (threads s) i = Some t /\ reg_site t = true /\ a = ARun) /\
+    length (threads s) <= length (threads s').
+Proof. exact label_table_holds. Qed.
+
+(* non-vacuity: the first step of a Serve call in the initial configuration is a step that takes the mutex *)
+Example C07_label_table_nonvacuous :
+  exists s', step false (run false init [ESpawnServe 7]) 0 ARun = Some s' /\
+             mu (run false init [ESpawnServe 7]) = false /\ mu s' = true.
+Proof. eexists. vm_compute. repeat split. Qed.
+
 Print Assumptions C07_invariant.
 Print Assumptions C07_no_panic.
 Print Assumptions C07_shutdown_nil_means_drained.
@@ -116,3 +150,4 @@ Print Assumptions C07_legacy_ordering_refuted.
 Print Assumptions C07_code_order.
 Print Assumptions C07_code_paths_complete.
 Print Assumptions C07_code_lockset.
+Print Assumptions C07_label_table.
